@@ -74,6 +74,7 @@ func (g *Gen) jsonNumberText() string {
 
 func genC13(g *Gen) {
 	g.setMode(0)
+	g.encodingGrid(0.1, func(x d128.Decimal) { g.un("MarshalJSON", x) })
 	nearMiss := []string{"+1", ".5", "5.", "01", "1_0", "-", "--1", "1e", "1e+", "1.e5", "0x10", "1 ", " 1", "Infinity", "NaN", "-Infinity", "inf", "nan",
 		"", "nul", "nulll", "NULL", "true", "false", "\"1\"", "\"1.5\"", "[1]", "[]", "{}", "{\"a\":1}", "1,2", "1e5e5", "00", "-01", "1.2.3", "١", "\x00", "1\x00"}
 	otherTypes := []string{"true", "false", "\"1\"", "\"abc\"", "[1]", "[]", "{}", "{\"a\":1}", "null"}
@@ -139,6 +140,11 @@ func genC13(g *Gen) {
 
 func genC14(g *Gen) {
 	g.setMode(0)
+	g.encodingGrid(0.08, func(x d128.Decimal) {
+		e := Ev{"op": "Decompose", "bufcap": []int{-1, 0, 16, 17}[g.r.Intn(4)]}
+		e.setDec("x", x)
+		g.emit(e)
+	})
 	lens := []int{0, 1, 2, 7, 8, 9, 15, 16, 17, 24, 31, 32, 33, 34, 40, 64, 100, 300}
 	expEdges := []int{math.MinInt32, math.MinInt32 + 1, math.MinInt32 + 50, -100000, -6300, -6212, -6211, -6210, -6177, -6176, -6175, -6141, -6100, -40, -1, 0, 1, 40,
 		6050, 6077, 6110, 6111, 6112, 6144, 6145, 6146, 6147, 6200, 100000, math.MaxInt32 - 50, math.MaxInt32 - 1, math.MaxInt32}
